@@ -2,8 +2,7 @@
    Every theorem quantifies over ALL byte strings [f] (well-formed bytes: < 256) and, where the code does
    fixed-width arithmetic, over both arithmetic modes (Checked = overflow-checked build, Wrapping = release).
    Models: Model/BinFormat.v (BinArchive::from_bytes / serialize), Model/Pack.v (fe9_arc::parse / serialize),
-   and the readers layered on the bin archive (text archive, arc, aset, asset binary - added below as their
-   models land).  Termination is Coq's (structural recursion; fuel lemmas where fuel is used).  The repaired
+   and the readers layered on the bin archive (text archive, arc, aset, asset binary - below).  Termination is Coq's (structural recursion; fuel lemmas where fuel is used).  The repaired
    code is modelled (fixes 6452b58, fbfd7a2, b15674a, bc4a741); `./check C05` ties the models to /repo by
    outcome category on random and structure-aware mutated inputs in both build profiles, and measures the
    largest single allocation request with a counting allocator. *)
@@ -11,6 +10,7 @@ From Coq Require Import List NArith ZArith Bool.
 From Mila Require Import Lib.Bytes Lib.Machine Model.BinArchive Model.BinFormat Model.Pack
   Proofs.BinFormatSpec Proofs.BinTotal Proofs.PackTotal.
 From Mila Require Model.BinStreams Model.TextMap Model.TextFormat Model.Arc Proofs.TextTotal Proofs.ArcTotal Proofs.TextArcTotal.
+From Mila Require Model.ASet Model.AssetBin Proofs.ASetWrite Proofs.RecsTotal.
 Import ListNotations.
 Local Open Scope N_scope.
 
@@ -107,3 +107,53 @@ Example C05_example_F9 :
   fst (Arc.read_entry_unrepaired Checked ArcTotal.f9_archive 0x64 Arc.HEADER_PAD) = Panic POverflow /\
   (forall m, Arc.arc_from_archive m ArcTotal.f9_archive = Err EOob).
 Proof. split; [exact ArcTotal.f9_unrepaired_checked_panics | exact ArcTotal.f9_repaired_rejects]. Qed.
+
+(* ---------------------------------------------------------------- animation-set files / asset binaries
+   (readers layered on the bin archive; Model/ASet.v, Model/AssetBin.v, Proofs/RecsTotal.v).  The readers contain no
+   fixed-width arithmetic, so their statements carry no mode; the mode enters through BinFormat.serialize. *)
+(* every byte string: never a panic, the loop fuel (|data| + 1) is never exhausted *)
+Theorem C05_aset_parse_no_panic : forall f k, ASet.parse f <> Panic k.
+Proof. exact RecsTotal.ASetT.parse_no_panic. Qed.
+Theorem C05_aset_parse_fuel_suffices : forall f, ASet.parse f <> Err EOutOfFuel.
+Proof. exact RecsTotal.ASetT.parse_fuel_never_exhausted. Qed.
+(* every archive value (also ones from_bytes cannot produce) *)
+Theorem C05_aset_from_archive_no_panic : forall a k, ASet.from_archive a <> Panic k.
+Proof. exact RecsTotal.ASetT.from_archive_no_panic. Qed.
+Theorem C05_aset_from_archive_fuel_suffices : forall a, ASet.from_archive a <> Err EOutOfFuel.
+Proof. exact RecsTotal.ASetT.from_archive_fuel_never_exhausted. Qed.
+(* the only outcomes: a value with 257 table entries and 257 entries per set, an out-of-bounds read, the missing table label *)
+Theorem C05_aset_from_archive_total : forall a,
+  match ASet.from_archive a with Ok v => ASetWrite.wf_aset v | Err e => e = EOob \/ e = EOther | Panic _ => False end.
+Proof. exact RecsTotal.ASetT.from_archive_total. Qed.
+(* one iteration of `while reader.tell() < archive.size()` consumes at least the 4 bytes of main_flags, and every flags word and
+   string cell its flags announce lies inside the data: a record that announces more than the data holds is rejected *)
+Theorem C05_aset_read_set_advances : forall a p s p',
+  ASet.read_set a p = Ok (s, p') -> p + 4 <= p' <= size a /\ length s = 257%nat.
+Proof. exact RecsTotal.ASetT.read_set_advances. Qed.
+(* anything accepted can be re-serialized without panicking, in both modes *)
+Theorem C05_aset_reserialize_no_panic : forall f v m k, ASet.parse f = Ok v -> ASet.serialize m v <> Panic k.
+Proof. exact RecsTotal.ASetT.reserialize_no_panic. Qed.
+
+Theorem C05_asset_parse_no_panic : forall f k, AssetBin.parse f <> Panic k.
+Proof. exact RecsTotal.AssetT.parse_no_panic. Qed.
+Theorem C05_asset_parse_fuel_suffices : forall f, AssetBin.parse f <> Err EOutOfFuel.
+Proof. exact RecsTotal.AssetT.parse_fuel_never_exhausted. Qed.
+Theorem C05_asset_from_archive_no_panic : forall a k, AssetBin.from_archive a <> Panic k.
+Proof. exact RecsTotal.AssetT.from_archive_no_panic. Qed.
+Theorem C05_asset_from_archive_fuel_suffices : forall a, AssetBin.from_archive a <> Err EOutOfFuel.
+Proof. exact RecsTotal.AssetT.from_archive_fuel_never_exhausted. Qed.
+(* the read-until-malformed loop always ends with the specs read so far: only an archive without the 4-byte header word is rejected *)
+Theorem C05_asset_from_archive_ok_iff : forall a, (exists b, AssetBin.from_archive a = Ok b) <-> 4 <= size a.
+Proof. exact RecsTotal.AssetT.from_archive_ok_iff. Qed.
+(* one record consumes at least 8 bytes (flag bytes + name cell) and everything its flags announce lies inside the data (a record
+   announcing more is rejected - and ends the loop); flags[4..6] are only indexed when 8 flag bytes were read *)
+Theorem C05_asset_from_stream_advances : forall a p sp p',
+  AssetBin.from_stream a p = Ok (sp, p') -> p + 8 <= p' <= size a.
+Proof. exact RecsTotal.AssetT.from_stream_advances. Qed.
+Theorem C05_asset_from_stream_no_panic : forall a p k, AssetBin.from_stream a p <> Panic k.
+Proof. exact RecsTotal.AssetT.from_stream_no_panic. Qed.
+(* EVERY asset-binary value serializes without panic in both modes, in particular anything accepted *)
+Theorem C05_asset_serialize_no_panic : forall m b k, AssetBin.serialize m b <> Panic k.
+Proof. exact RecsTotal.AssetT.serialize_no_panic. Qed.
+Theorem C05_asset_reserialize_no_panic : forall f b m k, AssetBin.parse f = Ok b -> AssetBin.serialize m b <> Panic k.
+Proof. exact RecsTotal.AssetT.reserialize_no_panic. Qed.
